@@ -20,6 +20,7 @@
 -/
 import EnrVerif.Proofs.StepLemmas
 import EnrVerif.Proofs.ToyScheme
+import EnrVerif.Proofs.Examples
 
 namespace EnrVerif
 
@@ -124,6 +125,46 @@ example : r2.nodeId = [9, 9] ∧ r2.nodeId ≠ r1.nodeId := ⟨by decide, by dec
 example : r0.nodeId = r1.nodeId :=
   nodeId_key_only tinyS tinyS_lawful r0 r1 r0_valid
     (step_ok_facts tinyS_lawful r0_valid call1_ok step1_ok).1 (fun _ => (by decide : Map.lookup r0.content kT = Map.lookup r1.content kT))
+
+/-! ### non-vacuity, continued: the remaining theorems on the same records -/
+
+/-- `nodeId_rekey` on the re-keying call: the hypotheses hold (`r1` valid, `call2 r1` is `CallOK`) -/
+example : tinyS.enrToPublic r2.content = .ok pk1 ∧ r2.nodeId = tinyS.digest (tinyS.uncompressed pk1) :=
+  nodeId_rekey tinyS tinyS_lawful r1 _ pk1 _ _ r2 r1_valid (call2_ok r1) step2_ok
+
+/-- `nodeId_accessor`: `public_key()` of `r0` is `pk0` -/
+example : r0.nodeId = nodeIdOf tinyS pk0 :=
+  nodeId_accessor tinyS r0 pk0 r0_valid (by unfold Record.publicKey; rw [r0_pub])
+
+/-- `nodeId_same_key_any` on a call that fails (the signer returns nothing) -/
+example : (step tinyS r0 (.setUdp4 30303) pk0 none).2.nodeId = r0.nodeId :=
+  nodeId_same_key_any tinyS tinyS_lawful r0 _ pk0 none r0_valid r0_pub
+    ⟨(by decide : (30303 : Nat) < 65536), tiny_keyOK pk0, fun _ _ _ hs => by cases hs⟩
+
+/-- `nodeId_same_pk`: `r0` and `rMax` carry the same key -/
+example : r0.nodeId = rMax.nodeId := nodeId_same_pk tinyS r0 rMax pk0 r0_valid rMax_valid r0_pub r0_pub
+
+/-- `nodeId_decoded` on the 18 bytes of `r0`; the id is the key `01 02 03` itself -/
+example : ∃ pk, tinyS.enrToPublic r0.content = .ok pk ∧ r0.nodeId = tinyS.digest (tinyS.uncompressed pk) :=
+  nodeId_decoded tinyS r0Bytes r0 [] r0Bytes_decodes
+
+example : r0.nodeId = [1, 2, 3] := rfl
+
+/-- `nodeId_built` on the build that produces `r0` -/
+example : tinyS.enrToPublic r0.content = .ok pk0 ∧ r0.nodeId = tinyS.digest (tinyS.uncompressed pk0) :=
+  nodeId_built tinyS tinyS_lawful {} pk0 _ r0 Builder.empty_wf (tiny_keyOK pk0)
+    (fun b' hb' => by
+      have h2 : Builder.prepare tinyS {} pk0 = .ok ⟨1, content0⟩ := rfl
+      rw [h2] at hb'
+      simp only [Except.ok.injEq] at hb'
+      rw [← hb']
+      exact tinySign_sigOK pk0 payload0)
+    r0_built
+
+/-- `nodeId_run` on the three-call history of `ToyScheme.lean`; it ends at `pk1`'s id -/
+example : ∃ pk, tinyS.enrToPublic (run tinyS r0 [call1, call2 r1, call3]).content = .ok pk ∧
+    (run tinyS r0 [call1, call2 r1, call3]).nodeId = tinyS.digest (tinyS.uncompressed pk) :=
+  nodeId_run tinyS tinyS_lawful r0 _ r0_valid run_ok
 
 #print axioms nodeId_spec
 #print axioms nodeId_accessor
